@@ -633,7 +633,11 @@ InEnvelope(s) == s.m \notin CodeModes /\ s.m # "err"
 
 RECURSIVE RunFrom(_, _, _, _, _)
 RunFrom(L, s, seq, i, j) == IF i > j THEN s ELSE RunFrom(L, Step(L, s, seq[i]), seq, i + 1, j)
-Run(L, s, seq) == RunFrom(L, s, seq, 1, Len(seq))
+\* in blocks of 200 units: the depth of TLC's recursion stays small however long the text is
+RECURSIVE RunBlocks(_, _, _, _)
+RunBlocks(L, s, seq, i) == IF i > Len(seq) THEN s
+                           ELSE RunBlocks(L, RunFrom(L, s, seq, i, IF i + 199 < Len(seq) THEN i + 199 ELSE Len(seq)), seq, i + 200)
+Run(L, s, seq) == RunBlocks(L, s, seq, 1)
 Lex(L, seq) == Finish(L, Run(L, S0(FALSE), seq))
 
 -----------------------------------------------------------------------------
